@@ -240,3 +240,83 @@ def worst_case_expectation(P, deltas):
             raise RuntimeError('reference LP failed')
         return float(-res.fun)
     raise ValueError('no reference for probability set kind %s' % k)
+
+
+def box_of(blocks, n):
+    """(lo, hi) of a set made of 'box' / 'absbox' blocks covering one array of length n"""
+    lo, hi = np.full(n, np.nan), np.full(n, np.nan)
+    for b in blocks:
+        I = b['idx']
+        if b['fam'] == 'box':
+            lo[I], hi[I] = b['lo'], b['hi']
+        elif b['fam'] == 'absbox':
+            c = np.asarray(b.get('c', np.zeros(len(I))), float)
+            w = np.asarray(b.get('w', np.ones(len(I))), float)
+            lo[I], hi[I] = c - w, c + w
+        else:
+            raise ValueError('not a box family: ' + b['fam'])
+    return lo, hi
+
+
+def worst_case_expectation_moments(P, boxes, a, moments):
+    """sup over distributions of E[a.z] with scenario probabilities p in P, z | s supported on the box boxes[s] = (lo, hi),
+    and for each (event, mlo, mhi) in `moments`: E[z | s in event] in [mlo, mhi].  Direct LP in (p, nu_s = p_s E[z|s])."""
+    from scipy.optimize import linprog
+    from . import world
+    lp = world.REAL.get('linprog', linprog)
+    a = np.asarray(a, float)
+    S, n = len(boxes), len(a)
+    phat = np.asarray(P['phat'], float)
+    k = P['kind']
+    nt = S if k == 'l1' else 0
+    N = S + S * n + nt
+
+    def pv(s):
+        return s
+
+    def nv(s, i):
+        return S + s * n + i
+    c = np.zeros(N)
+    for s in range(S):
+        for i in range(n):
+            c[nv(s, i)] = -a[i]
+    A, b, Aeq, beq = [], [], [], []
+    bounds = [(0, None)] * S + [(None, None)] * (S * n) + [(0, None)] * nt
+    r = np.zeros(N); r[:S] = 1; Aeq.append(r); beq.append(1.0)
+    if k == 'fixed':
+        for s in range(S):
+            bounds[s] = (phat[s], phat[s])
+    elif k == 'box':
+        for s in range(S):
+            bounds[s] = (max(0.0, round(phat[s] - P['d'], 6)), round(phat[s] + P['d'], 6))
+    elif k == 'linf':
+        for s in range(S):
+            bounds[s] = (max(0.0, phat[s] - P['d']), phat[s] + P['d'])
+    elif k == 'l1':
+        for s in range(S):
+            r1 = np.zeros(N); r1[s] = 1; r1[S + S * n + s] = -1; A.append(r1); b.append(phat[s])
+            r2 = np.zeros(N); r2[s] = -1; r2[S + S * n + s] = -1; A.append(r2); b.append(-phat[s])
+        r3 = np.zeros(N); r3[S + S * n:] = 1; A.append(r3); b.append(P['theta'])
+    else:
+        raise ValueError(k)
+    for s in range(S):
+        lo, hi = boxes[s]
+        for i in range(n):
+            r1 = np.zeros(N); r1[nv(s, i)] = 1; r1[pv(s)] = -hi[i]; A.append(r1); b.append(0.0)
+            r2 = np.zeros(N); r2[nv(s, i)] = -1; r2[pv(s)] = lo[i]; A.append(r2); b.append(0.0)
+    for ev, mlo, mhi in moments:
+        for i in range(n):
+            if mhi[i] is not None:
+                r1 = np.zeros(N)
+                for s in ev:
+                    r1[nv(s, i)] = 1; r1[pv(s)] = -mhi[i]
+                A.append(r1); b.append(0.0)
+            if mlo[i] is not None:
+                r2 = np.zeros(N)
+                for s in ev:
+                    r2[nv(s, i)] = -1; r2[pv(s)] = mlo[i]
+                A.append(r2); b.append(0.0)
+    res = lp(c, A_ub=np.array(A), b_ub=np.array(b), A_eq=np.array(Aeq), b_eq=np.array(beq), bounds=bounds)
+    if res.status != 0:
+        raise RuntimeError('reference moment LP failed: status %s' % res.status)
+    return float(-res.fun)
